@@ -20,9 +20,9 @@ T = {
  'C08': ('exploration', 'dictionary catalogue x supply modes x strategies x inputs, full product on structured dictionaries; every single-byte corruption of dictionary headers for memory safety',
          'dictionaries > 64 KiB not enumerated', 'exhaustive product enumeration (E1)', '3/C08'),
  'C09': ('fault_enumeration', 'every proper prefix of every seed frame through every decoder, every bit flip of stored checksums, every content-size rewrite, wrong pledges over call histories',
-         'frames > 1 KiB', 'exhaustive truncation / field-fault enumeration (E1)', '3/C09'),
+         'frames > 1 KiB; checksum flips on four kinds of decoder context (fresh, after verification was switched off and a full / parameter reset, static)', 'exhaustive truncation / field-fault enumeration (E1)', '3/C09'),
  'C10': ('model_checking', 'progress and flush-decodability oracles on every transition of the C02 state graphs; hint-following decoder over every catalogue frame',
-         'as C02', 'explicit-state search on snapshots (E3)', '3/C10'),
+         'as C02; multithreaded drivers (D2, D12, D15) under the deterministic scheduler; readers with 1..64-byte buffers besides exact hint-following', 'explicit-state search on snapshots (E3) + preemption-bounded scheduler exploration (E2)', '3/C10'),
  'C11': ('model_checking', 'real zstdmt code under a deterministic scheduler: every schedule with at most P preemptions / D deviations of several drivers; oracle: termination, decodes to input (library + reference decoder), one output, ASan clean, and no data race (ThreadSanitizer evaluated inside every explored schedule, happens-before from the modelled primitives only); seam harnesses for the serial section and the pools without preemption bound',
          'sequential consistency between synchronisation points; <= 3 workers; small-job build (ZSTDMT_JOBSIZE_MIN=1024)', 'preemption-bounded stateless exploration of the implementation under a deterministic scheduler (E2), state-cached exhaustive exploration of the serial-section / pool seams, race detection inside each explored schedule', '3/C11'),
  'C12': ('model_checking', 'real pool.c under the deterministic scheduler for every client program of a small grammar and every schedule in the bound; exactly-once / join / resize / free oracles, no deadlock, no use-after-free, no unsynchronised access (sched-tsan unit)',
@@ -30,19 +30,19 @@ T = {
  'C13': ('fault_enumeration', 'for each API scenario every allocation index is failed once (and every pair for short scenarios) through ZSTD_customMem; oracle: no crash, error returned, allocator live set empty, retry succeeds',
          'scenario catalogue is finite; MT scenarios use the zero-deviation schedule', 'exhaustive fault-index enumeration (E1 + counting allocator)', '3/C13'),
  'C14': ('exploration', 'static contexts of exactly the estimated size between guard pages, over all level pairs / cParams deviations / window descriptors; sizeof vs counting allocator',
-         'windowLog > 23 not run', 'exhaustive grid enumeration (E1)', '3/C14'),
+         'windowLog > 23 not run; static dictionaries with a process-heap oracle; wear unit: 300 jobs then a large one on a static context of the estimated size', 'exhaustive grid enumeration (E1)', '3/C14'),
  'C15': ('model_checking', 'all histories of frames on one context up to a depth with index rebasing forced every few KiB; each frame round-trips, conforms and equals the fresh-context output',
-         'rebasing forced by build-time knobs; real > 4 GiB runs only in thorough', 'history-replay state search (E3)', '3/C15'),
+         'index limits lowered by build-time knobs (frequent-correction build and index-limit build); no real > 4 GiB run', 'history-replay state search (E3)', '3/C15'),
  'C16': ('model_checking', 'every parameter x value-grid x stage x object combination and every operation sequence up to depth 3 against a reference table transcribed from zstd.h',
-         'reference table is hand-transcribed from the header documentation', 'exhaustive closed-grid state search (E3)', '3/C16'),
+         'reference table is hand-transcribed from the header documentation; dictionaries: reference model {none, sticky A, sticky B, one-shot prefix} over all histories of <= 4 of 9 operations, probe frame compared with a fresh context', 'exhaustive closed-grid state search against a reference model (E3)', '3/C16'),
  'C17': ('exploration', 'valid parses (generated, extracted, re-split at every position near block edges) and every single-field corruption of them through ZSTD_compressSequences',
          '10 source shapes', 'exhaustive enumeration of parses and single faults (E1)', '3/C17'),
  'C18': ('exploration', 'sample-set grammar x capacities x algorithms x tuning parameters within 2 deviations of a base; threaded optimisers under the scheduler',
          'sample sets from a grammar only', 'deviation-bounded exhaustive enumeration (E1, E2)', '3/C18'),
  'C19': ('fault_enumeration', 'for each CLI invocation the process tree is killed at every file-system-relevant system call (thorough: every system call); user data must be recoverable after each',
-         'process kill, not power loss', 'exhaustive crash-point enumeration under ptrace (E4)', '3/C19'),
+         'process kill, not power loss; write failures: every data-writing call fails once with ENOSPC while the process lives on (exit status and recoverability judged)', 'exhaustive crash-point and write-failure enumeration under ptrace (E4)', '3/C19'),
  'C20': ('model_checking', 'closed state graph of the seekable reader: from every reachable state every (offset, length); every single-byte corruption of each archive',
-         'contents <= 40 bytes', 'explicit-state search to fixpoint (E3)', '3/C20'),
+         'reader graph: contents <= 28 bytes; plus seek tables of 10 922..36 000 entries and 300 KB archives with multi-block frames (enumerated, not graph-closed)', 'explicit-state search to fixpoint (E3)', '3/C20'),
 }
 checks, na = [], []
 for pid in sorted(T):
